@@ -108,7 +108,7 @@ theorem indentAwareWrite_quiet (rc0 : RC) (hi : rc0.indentString = none) (s : St
 /-- an element that, in every state equal to `rc0` up to the write flags, appends `txt` and stays there -/
 def WritesText (reg : Registry) (root : Json) (rc0 : RC) (e : Elem) (txt : Str) : Prop :=
   ∀ (fuel : Nat) (rc : RC) (out : Out), Quiet rc0 rc → out.failAt = none →
-    ∃ rc' out', renderElem reg root (fuel + 4) e rc out = .ok () rc' out' ∧ Quiet rc0 rc' ∧ out'.failAt = none
+    ∃ rc' out', renderElem reg root (fuel + 6) e rc out = .ok () rc' out' ∧ Quiet rc0 rc' ∧ out'.failAt = none
       ∧ out'.text = out.text ++ txt
 
 theorem writes_raw (reg : Registry) (root : Json) (rc0 : RC) (hi : rc0.indentString = none) (s : Str) :
@@ -123,7 +123,7 @@ theorem writes_comment (reg : Registry) (root : Json) (rc0 : RC) (s : Str) : Wri
 
 theorem renderElems_writes (reg : Registry) (root : Json) (rc0 : RC) (tname : Option Str) (ets : List (Elem × Str))
     (hw : ∀ p ∈ ets, WritesText reg root rc0 p.1 p.2) :
-    ∀ (fuel : Nat) (mapping : List (Nat × Nat)) (rc : RC) (out : Out), ets.length + 6 ≤ fuel → Quiet rc0 rc → out.failAt = none →
+    ∀ (fuel : Nat) (mapping : List (Nat × Nat)) (rc : RC) (out : Out), ets.length + 8 ≤ fuel → Quiet rc0 rc → out.failAt = none →
       ∃ rc' out', renderElems reg root fuel tname (ets.map (·.1)) mapping rc out = .ok () rc' out' ∧ Quiet rc0 rc'
         ∧ out'.failAt = none ∧ out'.text = out.text ++ (ets.map (·.2)).flatten := by
   induction ets with
@@ -133,9 +133,9 @@ theorem renderElems_writes (reg : Registry) (root : Json) (rc0 : RC) (tname : Op
     exact ⟨rc, out, by simp [renderElems], hq, hf, by simp⟩
   | cons p ets ih =>
     intro fuel mapping rc out hfuel hq hf
-    obtain ⟨f, rfl⟩ : ∃ f, fuel = f + 4 + 1 := ⟨fuel - 5, by simp at hfuel; omega⟩
+    obtain ⟨f, rfl⟩ : ∃ f, fuel = f + 6 + 1 := ⟨fuel - 7, by simp at hfuel; omega⟩
     obtain ⟨rc1, out1, h1, hq1, hf1, ht1⟩ := hw p (by simp) f rc out hq hf
-    obtain ⟨rc2, out2, h2, hq2, hf2, ht2⟩ := ih (fun q hq' => hw q (by simp [hq'])) (f + 4) (mapping.drop 1) rc1 out1
+    obtain ⟨rc2, out2, h2, hq2, hf2, ht2⟩ := ih (fun q hq' => hw q (by simp [hq'])) (f + 6) (mapping.drop 1) rc1 out1
       (by simp at hfuel ⊢; omega) hq1 hf1
     refine ⟨rc2, out2, ?_, hq2, hf2, ?_⟩
     · simp only [List.map_cons, renderElems, RM.bind_def, RM.bnd_apply, RM.mapErr, h1, h2]
@@ -143,7 +143,7 @@ theorem renderElems_writes (reg : Registry) (root : Json) (rc0 : RC) (tname : Op
 
 /-- a template all of whose elements write a known text writes their concatenation -/
 theorem render_writes_template (reg : Registry) (root : Json) (name : Option Str) (ets : List (Elem × Str)) (m : List (Nat × Nat))
-    (rc : RC) (hlen : ets.length + 10 ≤ renderFuel)
+    (rc : RC) (hlen : ets.length + 12 ≤ renderFuel)
     (hw : ∀ p ∈ ets, WritesText reg root { rc with currentTemplate := name } p.1 p.2) :
     runRM (renderTemplate reg root renderFuel (.mk name (ets.map (·.1)) m)) rc {} = .ok (ets.map (·.2)).flatten := by
   obtain ⟨f, hf⟩ : ∃ f, renderFuel = f + 1 := ⟨renderFuel - 1, by decide⟩
